@@ -324,3 +324,75 @@ def deprecated_files_job(job) -> dict:
     finally:
         shutil.rmtree(parent, ignore_errors=True)
     return out
+
+
+def numbering_job(job) -> dict:
+    """PyxelNumbering: `nsaves` automatically numbered saves of one name into a folder that already holds the
+    numbers `pre`; after each save the folder is listed.  how = npy | txt (the deprecated save_to_* methods of
+    the outputs object) or 'exposure' (the legacy pyxel.exposure_mode saves one file per readout)."""
+    from pyxel.outputs import ExposureOutputs
+    parent = Path(tempfile.mkdtemp(prefix="numbering_", dir=os.environ.get("VERIF_WORK", px.VERIF + "/.work")))
+    ext = "npy" if job["how"] == "npy" else "txt"
+    events = []
+
+    def read(f):
+        a = np.load(f) if ext == "npy" else np.loadtxt(f, delimiter="|")
+        return int(round(float(np.asarray(a).ravel()[0])))
+
+    def listing(folder, stem):
+        nums = sorted(int(f.stem.rsplit("_", 1)[1]) for f in folder.glob(f"{stem}_*.{ext}"))
+        return nums, [read(folder / f"{stem}_{n}.{ext}") for n in nums]
+
+    def put(folder, stem, n):
+        f = folder / f"{stem}_{n}.{ext}"
+        np.save(f, np.zeros((2, 2))) if ext == "npy" else np.savetxt(f, np.zeros((2, 2)), delimiter=" | ", fmt="%.8e")
+
+    try:
+        with warnings.catch_warnings():
+            warnings.simplefilter("ignore")
+            if job["how"] in ("npy", "txt"):
+                outp = ExposureOutputs(output_folder=parent)
+                outp.create_output_folder()
+                folder, stem = Path(outp.current_output_folder), "detector_pixel_array"
+                for n in job["pre"]:
+                    put(folder, stem, n)
+                for k in range(1, job["nsaves"] + 1):
+                    ev = {"out": "ok", "n": -1}
+                    try:
+                        data = np.full((2, 2), float(k))
+                        f = (outp.save_to_npy if ext == "npy" else outp.save_to_txt)(data=data, name="detector.pixel.array")
+                        ev["n"] = int(Path(f).stem.rsplit("_", 1)[1])
+                    except Exception as exc:
+                        ev["out"], ev["exc"] = "error", f"{type(exc).__name__}: {exc}"[-120:]
+                    ev["listing"], ev["contents"] = listing(folder, stem)
+                    events.append(ev)
+            else:
+                import pyxel
+                from pyxel.exposure import Exposure, Readout
+                from pyxel.pipelines import DetectionPipeline, ModelFunction, ModelGroup
+                n = job["nsaves"]
+                outp = ExposureOutputs(output_folder=parent, save_data_to_file=[{"detector.pixel.array": ["txt"]}])
+                det = px.make_detector("ccd", 2, 2)
+                mode = Exposure(readout=Readout(times=[float(k) for k in range(1, n + 1)], non_destructive=False),
+                                outputs=outp)
+                pipe = DetectionPipeline(charge_collection=[ModelFunction(
+                    func="harness.outputs.readout_counter", name="counter", arguments={})])
+                pyxel.exposure_mode(exposure=mode, detector=det, pipeline=pipe)
+                folder, stem = Path(outp.current_output_folder), "detector_pixel_array"
+                nums, contents = listing(folder, stem)
+                # the saves happened one per readout: rebuild the per-save view from the final listing
+                for k in range(1, n + 1):
+                    upto = [(a, c) for a, c in zip(nums, contents) if c <= k]
+                    events.append({"out": "ok", "n": next((a for a, c in upto if c == k), -1),
+                                   "listing": [a for a, _ in upto], "contents": [c for _, c in upto]})
+    except Exception:
+        import traceback
+        events.append({"out": "harness-error", "n": -1, "listing": [], "contents": [], "exc": traceback.format_exc()[-600:]})
+    finally:
+        shutil.rmtree(parent, ignore_errors=True)
+    return {"pre": list(job["pre"]), "events": events, "case": {"kind": "numbering", "job": job}}
+
+
+def readout_counter(detector) -> None:
+    """Probe model: the pixel bucket holds the 1-based index of the readout."""
+    detector.pixel.array = np.full(detector.pixel.shape, float(detector.pipeline_count + 1))
